@@ -623,18 +623,27 @@ def inv_seed(job, j):
         return j
 
 
-def run_many(jobspec: dict) -> dict:
-    outs = []
+def make_plans(jobspec: dict) -> list:
+    out = []
     for i in range(jobspec["start"], jobspec["start"] + jobspec["count"]):
         job = draw_job(jobspec["seed"], jobspec["prop"], i, jobspec.get("tier", "quick"), jobspec["n_inv"],
                        jobspec["design_fraction"], jobspec.get("methods"))
         job["fidelity_every"] = jobspec.get("fidelity_every", 0)
         if jobspec.get("enumerate"):
             job = enumerate_job(job)
+        out.append(job)
+    return out
+
+
+def run_many(jobspec: dict) -> dict:
+    outs = []
+    for k, job in enumerate(make_plans(jobspec)):
+        i = jobspec["start"] + k
         r = run_plan(job)
         r["index"] = i
         if r["status"] == "violation":
             r["plan"] = job
+            r["jobspec"] = jobspec
         if i != jobspec["start"]:
             r.pop("sample", None)
         outs.append(r)
